@@ -170,7 +170,18 @@ def translateQueryMatch (name : String) (sm : StringMatch) : QueryMatcher :=
   | .regex s => { name := name, spec := .regex s }
   | .unset => { name := name, spec := .present true }
 
-/-- Stable insertion by header name (`sort.Slice` on <= 12 elements is an insertion sort). -/
+/-- Stable insertion by query-parameter name: `TranslateRouteMatch` walks `in.QueryParams` in sorted key
+    order (/repo 2dac7a8). -/
+def insertQByName (q : QueryMatcher) : List QueryMatcher → List QueryMatcher
+  | [] => [q]
+  | x :: xs => if x.name < q.name then x :: insertQByName q xs else q :: x :: xs
+
+def sortQByName : List QueryMatcher → List QueryMatcher
+  | [] => []
+  | q :: qs => insertQByName q (sortQByName qs)
+
+/-- Stable insertion by header name (`sort.SliceStable`; the maps are walked in sorted key order, so a
+    name occurring in both `headers` and `withoutHeaders` keeps the `headers` entry first). -/
 def insertByName (h : HeaderMatcher) : List HeaderMatcher → List HeaderMatcher
   | [] => [h]
   | x :: xs => if x.name < h.name then x :: insertByName h xs else h :: x :: xs
@@ -211,7 +222,7 @@ def translateRouteMatch (sem : Semantics) : Option HTTPMatch → RouteMatch
         ++ pseudoHeader ":method" m.method
         ++ pseudoHeader ":authority" m.authority
         ++ pseudoHeader ":scheme" m.scheme
-      query := m.queryParams.map (fun e => translateQueryMatch e.1 e.2) }
+      query := sortQByName (m.queryParams.map (fun e => translateQueryMatch e.1 e.2)) }
 
 /-! ## Actions -/
 
